@@ -214,6 +214,51 @@ func c07R3(c *engine.Ctx) {
 	sr, _ := constInt(c, "proto", "MessageServerResponse")
 	fs, _ := constInt(c, "proto", "MessageFromServer")
 	c.Check(sr == 2 && fs == 3, "C07.R3", "proto/type-constants", fn.Pos(), "MessageServerResponse=%d, MessageFromServer=%d (classes assume 2 and 3)", sr, fs)
+	// the classifier checkMessageID relies on: id mod 4 ∈ {-3..3} enumerated
+	tf := c.MustFunc("C07.R3", "proto", "MessageID.Type")
+	if tf == nil {
+		return
+	}
+	m := 0
+	for r := int64(-3); r <= 3; r++ {
+		r := r
+		sym := func(v ssa.Value) (int64, bool) {
+			if k, ok := engine.ConstInt(v); ok {
+				return k, true
+			}
+			if b, ok := engine.Unwrap(v).(*ssa.BinOp); ok && b.Op == token.REM && engine.Unwrap(b.X) == ssa.Value(tf.Params[0]) {
+				if k, isK := engine.ConstInt(b.Y); isK && k == 4 {
+					return r, true
+				}
+			}
+			return 0, false
+		}
+		res, err := engine.AbstractRun(tf, func(x, y ssa.Value) (int, bool) {
+			a, ok1 := sym(x)
+			b, ok2 := sym(y)
+			if !ok1 || !ok2 {
+				return 0, false
+			}
+			return cmp64(a, b), true
+		})
+		key := fmt.Sprintf("MessageID.Type/id-mod-4=%d", r)
+		if err != nil {
+			c.Undecided("C07.R3", key, tf.Pos(), "abstract evaluation failed: %v", err)
+			continue
+		}
+		m++
+		got, isK := engine.ConstInt(engine.RetValOnPath(res, 0))
+		want := int64(-1)
+		switch r {
+		case 1:
+			want = sr
+		case 3:
+			want = fs
+		}
+		ok := isK && ((want >= 0 && got == want) || (want < 0 && got != sr && got != fs))
+		c.Check(ok, "C07.R3", key, res.Ret.Pos(), "an id with id%%4 = %d is classified %d; only 1 → server-response (%d) and 3 → from-server (%d) may be server types", r, got, sr, fs)
+	}
+	c.Floor("C07.R3", 7, m)
 }
 
 func c07R4(c *engine.Ctx) {
